@@ -9,7 +9,8 @@
 (***************************************************************************)
 EXTENDS PS38Pdu, TLC
 
-CONSTANT SLen      \* maximum length of the short strings (2 quick, 3 thorough)
+CONSTANTS SLen,    \* maximum length of the short strings (2 quick, 3 thorough)
+          Wide     \* TRUE: pairs are drawn from the full component sets (thorough)
 
 SeqsUpTo(S, n) == UNION {[1..m -> S] : m \in 0..n}
 SeqsFromTo(S, a, n) == UNION {[1..m -> S] : m \in a..n}
@@ -56,6 +57,7 @@ AllSeven == <<[t |-> "max", hi |-> 0, lo |-> 16384], [t |-> "impl_uid", s |-> <<
               [t |-> "ident", itype |-> 2, pos |-> TRUE, prim |-> <<117>>, sec |-> <<112, 119>>],
               [t |-> "unk", type |-> 83, data |-> <<9>>]>>
 UvSeqs == {<<>>} \cup {<<u>> : u \in UvAll} \cup {<<u, v>> : u \in UvOne, v \in UvOne} \cup {AllSeven}
+          \cup (IF Wide THEN {<<u, v>> : u \in UvOne, v \in UvAll} \cup {<<u, v>> : u \in UvAll, v \in UvOne} ELSE {})
 
 AssocOf(base, pcsSeqs) ==
        {[base EXCEPT !.pv = v] : v \in {0, 1, 2, 256, 65535}}
@@ -67,7 +69,9 @@ AssocOf(base, pcsSeqs) ==
   \cup {[base EXCEPT !.pcs = s, !.uv = AllSeven, !.called = Rep(16, 66)] : s \in pcsSeqs}
 
 RqPcSeqs == {<<>>} \cup {<<c>> : c \in PcRqs} \cup {<<c, d>> : c \in PcRqsS, d \in PcRqsS}
+            \cup (IF Wide THEN {<<c, d>> : c \in PcRqs, d \in PcRqs} ELSE {})
 AcPcSeqs == {<<>>} \cup {<<c>> : c \in PcAcs} \cup {<<c, d>> : c \in PcAcsS, d \in PcAcsS}
+            \cup (IF Wide THEN {<<c, d>> : c \in PcAcs, d \in PcAcs} ELSE {})
 
 Rjs == {[k |-> "rj", result |-> r, source |-> s, reason |-> d] : r \in {1, 2}, s \in 1..3, d \in 0..10}
 Rejects == {x \in Rjs : x.reason \in RjReasonTable(x.source)}
@@ -77,7 +81,8 @@ Aborts == {[k |-> "abort", source |-> s, reason |-> 0] : s \in {0, 1}}
 Pdvs  == {[id |-> i, cmd |-> c, last |-> l, data |-> d] : i \in {1, 255}, c \in BOOLEAN, l \in BOOLEAN, d \in Bytes02}
 PdvsS == {[id |-> i, cmd |-> c, last |-> l, data |-> d] : i \in {1, 3}, c \in BOOLEAN, l \in BOOLEAN, d \in {<<>>, <<7>>}}
 PDatas == {[k |-> "pdata", pdvs |-> s] :
-             s \in {<<>>} \cup {<<v>> : v \in Pdvs} \cup {<<v, w>> : v \in PdvsS, w \in PdvsS}}
+             s \in {<<>>} \cup {<<v>> : v \in Pdvs} \cup {<<v, w>> : v \in PdvsS, w \in PdvsS}
+                   \cup (IF Wide THEN {<<v, w>> : v \in Pdvs, w \in Pdvs} ELSE {})}
 Unknowns == {[k |-> "unknown", type |-> y, data |-> d] :
                y \in {0, 8, 16, 80, 255}, d \in Bytes02 \cup {<<1, 2, 3, 4>>, <<0, 0, 0, 4, 1, 3>>}}
 
